@@ -353,6 +353,11 @@ func (p *Proxy) handleCONNECT(r responder.Responder, proxyReq *http.Request) err
 		if err := p.handleHTTP(responder, req); err != nil {
 			slog.Error("Error processing HTTP request in CONNECT tunnel", "host", proxyReq.Host, "error", err)
 		}
+
+		// Whatever the handler left unread of this request's body (a body sent with a request that was
+		// answered from the cache, say) must not be taken for the start of the next request.
+		io.Copy(io.Discard, req.Body)
+		req.Body.Close()
 	}
 
 	slog.Debug("Exiting CONNECT tunnel", "host", proxyReq.Host)
